@@ -647,10 +647,11 @@ class err_gs(err_node):
 
         self.ack_code = self._get_ack_code()
 
-        if seg_data is None:
-            self.st_count_orig = 0
-        else:
+        try:
             self.st_count_orig = int(seg_data.get_value('GE01'))  # AK902
+        except (AttributeError, TypeError, ValueError):
+            # no GE, or a GE01 that is missing or not a number
+            self.st_count_orig = 0
         self.st_count_recv = src.st_count  # AK903
         #self.st_count_accept = self.st_count_recv - len(self.children) # AK904
 
